@@ -251,7 +251,8 @@ func verifyDelayPeriodPassed(ctx sdk.Context, store sdk.KVStore, proofHeight exp
 	currentTimestamp := uint64(ctx.BlockTime().UnixNano())
 	validTime := processedTime + delayPeriod
 	// NOTE: delay period is inclusive, so if currentTimestamp is validTime, then we return no error
-	if validTime > currentTimestamp {
+	// validTime < processedTime: the uint64 sum wrapped around, i.e. the delay period can never have passed
+	if validTime < processedTime || validTime > currentTimestamp {
 		return sdkerrors.Wrapf(
 			ErrDelayPeriodNotPassed,
 			"cannot verify packet until time: %d, current time: %d",
